@@ -159,6 +159,26 @@ vf_gost_lps_tab(uint64_t out[8], const uint64_t in[8]) {
 		out[i] = c;
 	}
 }
+/* LPS as an ABSTRACT function (CBMC uninterpreted functions, one per output word).  Used by
+ * the composition jobs gost.T.gN*: the g_N step of the library, with gost3411_2012_XSLP
+ * replaced by its contract "dst == LPS(a xor b)", equals vf_gost_stage below for EVERY
+ * function LPS - in particular for the standard's, for which the contract of
+ * gost3411_2012_XSLP is proved separately (jobs gost.XSLP.*).  Nothing about pi, tau or A
+ * is needed to see that the library composes X, LPS, the key schedule, the final xor and
+ * the N / Sigma updates the way RFC 6986 section 7/8 does. */
+#ifdef VF_GOST_LPS_ABSTRACT
+#define VF_GOST_UF(i) uint64_t __CPROVER_uninterpreted_gost_lps##i(uint64_t, uint64_t, uint64_t, uint64_t, uint64_t, uint64_t, uint64_t, uint64_t)
+VF_GOST_UF(0); VF_GOST_UF(1); VF_GOST_UF(2); VF_GOST_UF(3); VF_GOST_UF(4); VF_GOST_UF(5); VF_GOST_UF(6); VF_GOST_UF(7);
+#define VF_GOST_UFA(i, x) __CPROVER_uninterpreted_gost_lps##i((x)[0], (x)[1], (x)[2], (x)[3], (x)[4], (x)[5], (x)[6], (x)[7])
+static inline void
+vf_gost_lps_abs(uint64_t out[8], const uint64_t in[8]) {
+	uint64_t r0 = VF_GOST_UFA(0, in), r1 = VF_GOST_UFA(1, in), r2 = VF_GOST_UFA(2, in), r3 = VF_GOST_UFA(3, in),
+	    r4 = VF_GOST_UFA(4, in), r5 = VF_GOST_UFA(5, in), r6 = VF_GOST_UFA(6, in), r7 = VF_GOST_UFA(7, in);
+	out[0] = r0; out[1] = r1; out[2] = r2; out[3] = r3; out[4] = r4; out[5] = r5; out[6] = r6; out[7] = r7;
+}
+#undef VF_GOST_LPS
+#define VF_GOST_LPS(out, in)	vf_gost_lps_abs(out, in)
+#endif
 #ifndef VF_GOST_LPS
 #define VF_GOST_LPS(out, in)	vf_gost_lps_def(out, in)
 #endif
